@@ -161,7 +161,7 @@ def program(rng, x, kind, calls, types=None):
             s = sigs[g]
             if not have_src:
                 feat.add("source-0")
-            op = {"op": "signal", "id": g, "src": 1 if have_src else 0, "dt": dt, "rate": s["rate"], "spd": spd, "sdf": sdf, "eps": eps, "sumdf": sumdf,
+            op = {"op": "signal", "id": g, "src": 1 if have_src else 0, "dt": dt, "q": rng.choice([0, 0, 0, 5, 250]) if not dt.startswith("f") else 0, "rate": s["rate"], "spd": spd, "sdf": sdf, "eps": eps, "sumdf": sumdf,
                   "adf": s["adf"], "udf": s["udf"], "name": lit("sig%d" % g), "units": rng.choice([None, lit("V")]), "base": base, "tbase": tb}
             if t[0] == "vsr":
                 op["st"] = 1
